@@ -4,12 +4,14 @@ for the given seeds; prints one line per (change, seed).  usage: seeded_regress.
 import json, os, re, subprocess, sys, tempfile, shutil
 seeds = sys.argv[1:] or ["2"]
 sd = "/verif/seeded"
+only = [x for x in os.environ.get("REG_ONLY", "").split(",") if x]       # REG_ONLY=C07,C13: only changes caught by these checks
 for d in sorted(os.listdir(sd)):
     m = json.load(open(os.path.join(sd, d, "meta.json")))
     txt = (m.get("checks_run") or "") + " " + (m.get("detected") or "")
     ids = re.findall(r"\./check (C\d\d)[^;]*?-> exit 1|\./check (C\d\d)[^;]*?exit 0 before / exit 1 after|caught by \./check (C\d\d)", txt)
     ids = [x for t in ids for x in t if x] or [m.get("property")]
     cid = ids[0]
+    if only and cid not in only: continue
     for s in seeds:
         D = tempfile.mkdtemp(prefix="mutreg-", dir="/tmp")
         try:
